@@ -1914,3 +1914,612 @@ Proof.
 Qed.
 
 End Count.
+
+(** ** Pill identifiers: the pills created are 0, 1, 2, … in creation order *)
+Definition pb (t : list event) : list nat :=
+  flat_map (fun e => match e with
+                     | Enq e => match emsg e with Pill _ k => [k] | _ => [] end
+                     | EvDeadLetter (Pill _ k) => [k]
+                     | _ => [] end) t.
+Definition nobirth (e : event) : Prop :=
+  match e with Enq e => match emsg e with Pill _ _ => False | _ => True end
+             | EvDeadLetter (Pill _ _) => False | _ => True end.
+
+Lemma pb_app a b : pb (a ++ b) = pb a ++ pb b. Proof. apply flat_map_app. Qed.
+Lemma pb_nobirth t : Forall nobirth t -> pb t = [].
+Proof.
+  induction 1 as [|e t He _ IH]; [reflexivity|]. cbn [pb flat_map]. fold (pb t). rewrite IH.
+  destruct e as [ | | | | | | |[]| | | | | |e| | | ]; cbn in *; try reflexivity; try contradiction.
+  destruct (emsg e); [reflexivity|contradiction].
+Qed.
+
+Definition NP (s : pst) (t : list event) (s' : pst) : Prop :=
+  npill s <= npill s' /\ pb t = seq (npill s) (npill s' - npill s).
+
+Lemma NP_trans s t1 s1 t2 s2 : NP s t1 s1 -> NP s1 t2 s2 -> NP s (t1 ++ t2) s2.
+Proof.
+  intros [H1 E1] [H2 E2]. split; [lia|]. rewrite pb_app, E1, E2.
+  replace (npill s2 - npill s) with ((npill s1 - npill s) + (npill s2 - npill s1)) by lia.
+  rewrite seq_app. do 2 f_equal. lia.
+Qed.
+Lemma NP_quiet s t s' : Forall nobirth t -> npill s' = npill s -> NP s t s'.
+Proof. intros Ht E. split; [lia|]. rewrite (pb_nobirth _ Ht), E, Nat.sub_diag. reflexivity. Qed.
+Lemma NP_cons s e t s' : nobirth e -> NP s t s' -> NP s (e :: t) s'.
+Proof. intros He H. apply (NP_trans s [e] s t s'); [apply NP_quiet; [repeat constructor; exact He|reflexivity]|exact H]. Qed.
+Lemma NP_app_quiet s t1 s1 t2 : NP s t1 s1 -> Forall nobirth t2 -> NP s (t1 ++ t2) s1.
+Proof. intros H Ht. eapply NP_trans; [exact H|apply NP_quiet; [exact Ht|reflexivity]]. Qed.
+
+Lemma do_actions_NP acts s s' t o : do_actions s acts = (s', t, o) -> NP s t s'.
+Proof.
+  apply (do_actions_rel NP).
+  - intros. apply NP_quiet; [constructor|reflexivity].
+  - apply NP_trans.
+  - intros s0 n b. unfold send_self. destruct (registered s0); cbn; apply NP_quiet; repeat constructor.
+  - intros s0 g. unfold poison_self, NP. destruct (registered s0); cbn [fst snd npill upd_npill upd_queue pb flat_map emsg app];
+      (split; [lia|]); replace (S (npill s0) - npill s0) with 1 by lia; reflexivity.
+Qed.
+
+Lemma recv_NP c s mw m s' t o : recv c s mw m = (s', t, o) -> NP s t s'.
+Proof. intros H. apply recv_inv in H as (ta & -> & H). apply NP_cons; [exact I|eapply do_actions_NP; exact H]. Qed.
+
+Lemma invoke_msg_NP c s e s' t o : invoke_msg c s e = (s', t, o) -> NP s t s'.
+Proof.
+  unfold invoke_msg. destruct (emsg e).
+  - intros H. apply recv_NP in H. exact H.
+  - intros [= <- <- <-]. apply NP_quiet; [constructor|reflexivity].
+Qed.
+
+Lemma discard_nobirth e : Forall nobirth (discard e).
+Proof. unfold discard. destruct (emsg e); repeat constructor. Qed.
+Lemma flat_discard_nobirth l : Forall nobirth (flat_map discard l).
+Proof. induction l; cbn; [constructor|apply Forall_app; split; [apply discard_nobirth|assumption]]. Qed.
+Lemma discard_rest_nobirth g l : Forall nobirth (discard_rest g l).
+Proof.
+  unfold discard_rest. induction l as [|e l IH]; cbn; [constructor|]. apply Forall_app; split; [|exact IH].
+  destruct (emsg e) eqn:E; [destruct g; [constructor|]|]; unfold discard; rewrite E; repeat constructor.
+Qed.
+
+Lemma cleanup_NP c s k s' t : cleanup c s k = (s', t, Normal) -> NP s t s'.
+Proof.
+  intros H. apply cleanup_normal_inv in H as (s1 & t1 & E & -> & ->). apply recv_NP in E.
+  apply NP_cons; [exact I|]. change (NP (upd_istopped (upd_dead s true) true) (t1 ++ [RegRemove; EvStopped] ++ flat_map discard (queue s1) ++ match k with Some k0 => [Cancel k0] | None => [] end) s1).
+  apply NP_app_quiet; [exact E|]. constructor; [exact I|]. constructor; [exact I|].
+  apply Forall_app; split; [apply flat_discard_nobirth|destruct k; repeat constructor].
+Qed.
+
+Lemma drain_NP c : forall l s n sk s' t o np sk', drain c s l n sk = (s', t, o, np, sk') -> NP s t s'.
+Proof.
+  induction l as [|e l IH]; intros s n sk s' t o np sk' H; cbn [drain] in H.
+  - injection H as <- <- <- <- <-. apply NP_quiet; [constructor|reflexivity].
+  - destruct (emsg e) eqn:Ee; [|eapply IH; exact H].
+    destruct (invoke_msg c s e) as [[s1 t1] o1] eqn:E1. apply invoke_msg_NP in E1. destruct o1.
+    + destruct (drain c s1 l (S n) sk) as [[[[s2 t2] o2] np2] sk2] eqn:E2. injection H as <- <- <- <- <-.
+      eapply NP_trans; [exact E1|eapply IH; exact E2].
+    + injection H as <- <- <- <- <-. exact E1.
+Qed.
+
+Lemma invoke_loop_NP c (Hs : stopped_safe c) : forall l s n s' t o np d,
+  invoke_loop c s l n = (s', t, o, np, d) -> NP s t s'.
+Proof.
+  induction l as [|e l IH]; intros s n s' t o np d H; cbn [invoke_loop] in H.
+  - injection H as <- <- <- <- <-. apply NP_quiet; [constructor|reflexivity].
+  - destruct (emsg e) eqn:Ee.
+    + destruct (invoke_msg c s e) as [[s1 t1] o1] eqn:E1. apply invoke_msg_NP in E1. destruct o1.
+      * destruct (invoke_loop c s1 l (S n)) as [[[[s2 t2] o2] np2] d2] eqn:E2. injection H as <- <- <- <- <-.
+        eapply NP_trans; [exact E1|eapply IH; exact E2].
+      * injection H as <- <- <- <- <-. exact E1.
+    + assert (Hd : exists s1 t1 o1 np1 sk1,
+          (if graceful then drain c s l (S n) [] else (s, [], Normal, S n, [])) = (s1, t1, o1, np1, sk1) /\ NP s t1 s1).
+      { destruct graceful.
+        - destruct (drain c s l (S n) []) as [[[[s1 t1] o1] np1] sk1] eqn:E1. exists s1, t1, o1, np1, sk1.
+          split; [reflexivity|]. eapply drain_NP; exact E1.
+        - exists s, [], Normal, (S n), []. split; [reflexivity|]. apply NP_quiet; [constructor|reflexivity]. }
+      destruct Hd as (s1 & t1 & o1 & np1 & sk1 & Heq & H1). rewrite Heq in H. clear Heq. destruct o1.
+      * destruct (cleanup c s1 (Some k)) as [[s2 t2] o2] eqn:E2.
+        pose proof (cleanup_safe _ _ _ _ _ _ Hs E2) as ->. apply cleanup_NP in E2.
+        injection H as <- <- <- <- <-. eapply NP_trans; [exact H1|]. apply NP_app_quiet; [exact E2|apply discard_rest_nobirth].
+      * injection H as <- <- <- <- <-. exact H1.
+Qed.
+
+Lemma start_end_NP s3 : NP s3 (snd (start_end s3)) (fst (start_end s3)).
+Proof. unfold start_end. destruct (dead s3); cbn [fst snd]; apply NP_quiet; repeat constructor. Qed.
+
+Theorem safe_NP c (Hs : stopped_safe c) :
+  (forall s msgs s' t, Invoke_s c s msgs s' t -> NP s t s') /\
+  (forall s s' t, Start_s c s s' t -> NP s t s') /\
+  (forall s b s' t, Restart_s c s b s' t -> NP s t s').
+Proof.
+  apply safe_mutind.
+  - intros s msgs s' t np d El. eapply invoke_loop_NP; eassumption.
+  - intros s msgs s1 t1 b np d s' t2 El _ IH. eapply NP_trans; [eapply invoke_loop_NP; eassumption|exact IH].
+  - intros s si ti b s' t' Ei _ IH. apply recv_NP in Ei. apply NP_cons; [exact I|]. eapply NP_trans; [exact Ei|exact IH].
+  - intros s si ti s2 ts b s' t' Ei Es _ IH. apply recv_NP in Ei. apply recv_NP in Es.
+    apply NP_cons; [exact I|]. eapply NP_trans; [exact Ei|]. apply NP_cons; [exact I|]. eapply NP_trans; [exact Es|exact IH].
+  - intros s si ti s2 ts Ei Es Hb. apply recv_NP in Ei. apply recv_NP in Es.
+    apply NP_cons; [exact I|]. eapply NP_trans; [exact Ei|]. apply NP_cons; [exact I|]. eapply NP_trans; [exact Es|].
+    apply NP_cons; [exact I|]. apply start_end_NP.
+  - intros s si ti s2 ts s3 t3 Ei Es Hb _ IH. apply recv_NP in Ei. apply recv_NP in Es.
+    apply NP_cons; [exact I|]. eapply NP_trans; [exact Ei|]. apply NP_cons; [exact I|]. eapply NP_trans; [exact Es|].
+    apply NP_cons; [exact I|]. eapply NP_trans; [exact IH|]. apply (start_end_NP (upd_mbuf s3 [])).
+  - intros s s1 t1 s' t' E1 _ IH. apply recv_NP in E1. eapply NP_trans; [exact E1|]. apply NP_cons; [exact I|exact IH].
+  - intros s s1 t1 Hmax E1. apply cleanup_NP in E1. apply NP_cons; [exact I|].
+    apply (NP_app_quiet s t1 s1); [exact E1|apply flat_discard_nobirth].
+  - intros s s1 t1 s' t3 Hne E1 _ IH. apply recv_NP in E1. eapply NP_trans; [exact E1|].
+    apply NP_cons; [exact I|]. apply NP_cons; [exact I|exact IH].
+Qed.
+
+Lemma RunLoop_NP c (Hs : stopped_safe c) s s' t : RunLoop_s c s s' t -> NP s t s'.
+Proof.
+  induction 1 as [s E|s E Eq|s s1 t1 s2 t2 E Eq Hi _ IH]; try (apply NP_quiet; [constructor|reflexivity]).
+  apply (proj1 (safe_NP c Hs)) in Hi. eapply NP_trans; [exact Hi|exact IH].
+Qed.
+
+Lemma ext_pre_NP s x s1 t1 : ext_pre s x = (s1, t1) -> NP s t1 s1.
+Proof.
+  destruct x; cbn [ext_pre]; unfold send_self, poison_self, NP; destruct (registered s); intros [= <- <-];
+    cbn [npill upd_npill upd_queue pb flat_map emsg app sent_of]; (split; [lia|]);
+    rewrite ?Nat.sub_diag; try replace (S (npill s) - npill s) with 1 by lia; reflexivity.
+Qed.
+
+Lemma Exts_NP c (Hs : stopped_safe c) s xs s' t : Exts_s c s xs s' t -> NP s t s'.
+Proof.
+  induction 1 as [s|s x s1 t1 s2 t2 xs s3 t3 Ep Hl _ IH]; [apply NP_quiet; [constructor|reflexivity]|].
+  eapply NP_trans; [eapply ext_pre_NP; exact Ep|]. eapply NP_trans; [eapply RunLoop_NP; eassumption|exact IH].
+Qed.
+
+Theorem Run_NP c (Hs : stopped_safe c) xs s t : Run_s c xs s t -> pb t = seq 0 (npill s).
+Proof.
+  intros [s0 t0 s1 t1 s2 t2 H0 H1 H2].
+  apply (proj1 (proj2 (safe_NP c Hs))) in H0. apply (RunLoop_NP c Hs) in H1. apply (Exts_NP c Hs) in H2.
+  destruct (NP_trans _ _ _ _ _ H0 (NP_trans _ _ _ _ _ H1 H2)) as [_ H]. cbn [npill init_pst] in H.
+  rewrite Nat.sub_0_r in H. exact H.
+Qed.
+
+(** ** Quiescence: at the end of a scenario the queue is empty *)
+Lemma RunLoop_queue c (Hs : stopped_safe c) s s' t : RunLoop_s c s s' t -> opened s -> queue s' = [].
+Proof.
+  induction 1 as [s E|s E Eq|s s1 t1 s2 t2 E Eq Hi _ IH]; intros Ho.
+  - destruct Ho as [[_ ?]|(_ & _ & _ & ?)]; [congruence|assumption].
+  - exact Eq.
+  - pose proof (opened_mfin_alive _ Ho E) as Ha.
+    destruct (proj1 (safe_mon c Hs) _ _ _ _ Hi) as [_ Hd]; [exact Ha|].
+    cbn [istatus_stopped upd_queue] in Hd. apply IH.
+    destruct Hd as [[? H1]|?]; [left; split; [assumption|exact (H1 E)]|right; assumption].
+Qed.
+
+Lemma Exts_queue c (Hs : stopped_safe c) s xs s' t : Exts_s c s xs s' t -> opened s -> queue s = [] -> queue s' = [].
+Proof.
+  induction 1 as [s|s x s1 t1 s2 t2 xs s3 t3 Ep Hl _ IH]; intros Ho Hq; [exact Hq|].
+  destruct (ext_pre_mon _ _ _ _ Ep Ho) as [_ Ho1]. apply IH.
+  - apply (RunLoop_mon c Hs _ _ _ Hl Ho1).
+  - eapply RunLoop_queue; eassumption.
+Qed.
+
+Lemma Run_queue c (Hs : stopped_safe c) xs s t : Run_s c xs s t -> queue s = [].
+Proof.
+  intros [s0 t0 s1 t1 s2 t2 H0 H1 H2]. destruct (Start_init_mon c Hs _ _ H0) as [_ Ho0].
+  eapply Exts_queue; [exact Hs|exact H2|apply (RunLoop_mon c Hs _ _ _ H1 Ho0)|eapply RunLoop_queue; eassumption].
+Qed.
+
+(** ** The conservation law read on lists *)
+Definition cn1 (n m : nat) : nat := if n =? m then 1 else 0.
+
+Lemma count_cons l m n : count_occ Nat.eq_dec (m :: l) n = cn1 n m + count_occ Nat.eq_dec l n.
+Proof.
+  unfold cn1. destruct (Nat.eq_dec m n) as [->|Hne].
+  - rewrite count_occ_cons_eq, Nat.eqb_refl by reflexivity. reflexivity.
+  - rewrite count_occ_cons_neq by exact Hne. assert (n =? m = false) as -> by (apply Nat.eqb_neq; congruence). reflexivity.
+Qed.
+
+Lemma nb_user n t : nb (inl n) t = count_occ Nat.eq_dec (sends_of t) n.
+Proof.
+  induction t as [|e t IH]; [reflexivity|]. rewrite nb_cons, IH.
+  destruct e as [ | | | | | | |[]| | | | | |e| | | ]; cbn [sends_of ev_born]; try reflexivity.
+  - unfold kp. destruct (emsg e); reflexivity.
+  - rewrite count_cons. reflexivity.
+Qed.
+
+Lemma no_user n t : no (inl n) t = count_occ Nat.eq_dec (dlv t) n + count_occ Nat.eq_dec (ddl t) n.
+Proof.
+  induction t as [|e t IH]; [reflexivity|]. rewrite no_cons, IH.
+  destruct e as [ |i mw [] sd| | | | | |[]| | | | | | | | | ]; cbn [ev_out dlv ddl flat_map app]; fold (dlv t); fold (ddl t);
+    rewrite ?count_cons; cbn [kx]; unfold cn1; lia.
+Qed.
+
+Lemma nb_pill k t : nb (inr k) t = count_occ Nat.eq_dec (pb t) k.
+Proof.
+  induction t as [|e t IH]; [reflexivity|]. rewrite nb_cons, IH.
+  destruct e as [ | | | | | | |[]| | | | | |e| | | ]; cbn [ev_born pb flat_map app]; fold (pb t); try reflexivity.
+  - rewrite count_cons. reflexivity.
+  - unfold kp. destruct (emsg e); cbn [app]; rewrite ?count_cons; reflexivity.
+Qed.
+
+Lemma no_pill k t : no (inr k) t = count_occ Nat.eq_dec (cnc t) k.
+Proof.
+  induction t as [|e t IH]; [reflexivity|]. rewrite no_cons, IH.
+  destruct e as [ |i mw [] sd| | | | | |[]| | | | | | | | | ]; cbn [ev_out cnc flat_map app]; fold (cnc t);
+    rewrite ?count_cons; reflexivity.
+Qed.
+
+Lemma count_seq0 n k : count_occ Nat.eq_dec (seq 0 n) k = if k <? n then 1 else 0.
+Proof.
+  destruct (k <? n) eqn:E.
+  - apply Nat.ltb_lt in E. apply NoDup_count_occ'; [apply seq_NoDup|]. apply in_seq. lia.
+  - apply Nat.ltb_ge in E. apply count_occ_not_In. rewrite in_seq. lia.
+Qed.
+
+Lemma Permutation_length_eq {A} (l1 l2 : list A) : Permutation l1 l2 -> length l1 = length l2.
+Proof. apply Permutation_length. Qed.
+
+(** C05 (with C09): no message is lost silently and none is counted twice:
+    the messages sent to the actor are, as a multiset, the messages delivered
+    to Receive together with the messages reported as dead letters *)
+Theorem C05_no_silent_loss_thm :
+  forall f c xs s t, stopped_safe c -> run f c xs = (s, t) -> out_of_fuel t = false ->
+  Permutation (sends_of t) (user_payloads (recvs_of t) ++ dead_payloads (events_of t)) /\
+  length (sends_of t) = length (user_payloads (recvs_of t)) + length (dead_payloads (events_of t)) /\
+  queue s = [].
+Proof.
+  intros f c xs s t Hs H Hf. pose proof (run_sound c Hs _ _ _ _ H Hf) as Hr.
+  pose proof (Run_queue c Hs _ _ _ Hr) as Hq. rewrite dlv_recvs, ddl_events.
+  assert (Hp : Permutation (sends_of t) (dlv t ++ ddl t)).
+  { apply (Permutation_count_occ Nat.eq_dec). intros n. rewrite count_occ_app, <- nb_user, <- no_user.
+    rewrite (Run_cnt (inl n) c Hs _ _ _ Hr), Hq. cbn. lia. }
+  split; [exact Hp|]. split; [|exact Hq]. rewrite <- app_length. apply Permutation_length, Hp.
+Qed.
+
+(** C07: every Stop/Poison context is cancelled exactly once *)
+Theorem C07_every_pill_cancelled_exactly_once_thm :
+  forall f c xs s t, stopped_safe c -> run f c xs = (s, t) -> out_of_fuel t = false ->
+  forall k, count_occ Nat.eq_dec (cnc t) k = if k <? npill s then 1 else 0.
+Proof.
+  intros f c xs s t Hs H Hf k. pose proof (run_sound c Hs _ _ _ _ H Hf) as Hr.
+  rewrite <- no_pill. pose proof (Run_cnt (inr k) c Hs _ _ _ Hr) as Hc.
+  rewrite (Run_queue c Hs _ _ _ Hr) in Hc. cbn [nk map list_sum fold_right] in Hc.
+  rewrite nb_pill, (Run_NP c Hs _ _ _ Hr), count_seq0 in Hc. lia.
+Qed.
+
+Lemma cancelled_cnc t k : cancelled t k = true <-> In k (cnc t).
+Proof.
+  unfold cancelled, cnc. rewrite existsb_exists, in_flat_map. split.
+  - intros (e & He & Hk). exists e. split; [exact He|]. destruct e; try discriminate. apply Nat.eqb_eq in Hk. subst. left; reflexivity.
+  - intros (e & He & Hk). exists e. split; [exact He|]. destruct e; try contradiction. destruct Hk as [->|[]]. apply Nat.eqb_refl.
+Qed.
+
+Corollary C07_every_pill_cancelled_cor :
+  forall f c xs s t, stopped_safe c -> run f c xs = (s, t) -> out_of_fuel t = false ->
+  forall k, k < npill s -> cancelled t k = true.
+Proof.
+  intros f c xs s t Hs H Hf k Hk. apply cancelled_cnc.
+  apply (count_occ_In Nat.eq_dec). rewrite (C07_every_pill_cancelled_exactly_once_thm _ _ _ _ _ Hs H Hf).
+  apply Nat.ltb_lt in Hk. rewrite Hk. lia.
+Qed.
+
+(* ------------------------------------------------------------------ *)
+(** ** Properties of the trace alone that are closed under concatenation
+
+    A predicate that holds of the empty trace, of the trace of one engine
+    operation ([send_self], [poison_self]) and of every other single event,
+    and is closed under [++], holds of the trace of every completed scenario. *)
+Section TraceOnly.
+Variable P : list event -> Prop.
+Hypothesis P_nil : P [].
+Hypothesis P_app : forall a b, P a -> P b -> P (a ++ b).
+Hypothesis P_send : forall s n b, P (snd (send_self s {| emsg := User n; esnd := b |})).
+Hypothesis P_poison : forall s g, P (snd (poison_self s g)).
+Hypothesis P_single : forall e, match e with Sent _ | Enq _ => False | _ => True end -> P [e].
+
+Lemma P_cons e t : match e with Sent _ | Enq _ => False | _ => True end -> P t -> P (e :: t).
+Proof. intros He Ht. apply (P_app [e] t); [apply P_single, He|exact Ht]. Qed.
+
+Lemma do_actions_P acts s s' t o : do_actions s acts = (s', t, o) -> P t.
+Proof.
+  apply (do_actions_rel (fun _ t _ => P t)); auto.
+Qed.
+
+Lemma recv_P c s mw m s' t o : recv c s mw m = (s', t, o) -> P t.
+Proof. intros H. apply recv_inv in H as (ta & -> & H). apply P_cons; [exact I|eapply do_actions_P; exact H]. Qed.
+
+Lemma invoke_msg_P c s e s' t o : invoke_msg c s e = (s', t, o) -> P t.
+Proof.
+  unfold invoke_msg. destruct (emsg e); [apply recv_P|]. intros [= <- <- <-]. exact P_nil.
+Qed.
+
+Lemma discard_P e : P (discard e).
+Proof. unfold discard. destruct (emsg e); apply P_single; exact I. Qed.
+Lemma flat_discard_P l : P (flat_map discard l).
+Proof. induction l; cbn; [exact P_nil|apply P_app; [apply discard_P|assumption]]. Qed.
+Lemma discard_rest_P g l : P (discard_rest g l).
+Proof.
+  unfold discard_rest. induction l as [|e l IH]; cbn; [exact P_nil|]. apply P_app; [|exact IH].
+  destruct (emsg e) eqn:E; [destruct g; [exact P_nil|]|]; apply discard_P.
+Qed.
+
+Lemma cleanup_P c s k s' t : cleanup c s k = (s', t, Normal) -> P t.
+Proof.
+  intros H. apply cleanup_normal_inv in H as (s1 & t1 & E & -> & ->). apply recv_P in E.
+  apply P_cons; [exact I|]. apply P_app; [exact E|]. apply P_cons; [exact I|]. apply P_cons; [exact I|].
+  apply P_app; [apply flat_discard_P|]. destruct k; [apply P_single; exact I|exact P_nil].
+Qed.
+
+Lemma drain_P c : forall l s n sk s' t o np sk', drain c s l n sk = (s', t, o, np, sk') -> P t.
+Proof.
+  induction l as [|e l IH]; intros s n sk s' t o np sk' H; cbn [drain] in H.
+  - injection H as <- <- <- <- <-. exact P_nil.
+  - destruct (emsg e) eqn:Ee; [|eapply IH; exact H].
+    destruct (invoke_msg c s e) as [[s1 t1] o1] eqn:E1. apply invoke_msg_P in E1. destruct o1.
+    + destruct (drain c s1 l (S n) sk) as [[[[s2 t2] o2] np2] sk2] eqn:E2. injection H as <- <- <- <- <-.
+      apply P_app; [exact E1|eapply IH; exact E2].
+    + injection H as <- <- <- <- <-. exact E1.
+Qed.
+
+Lemma invoke_loop_P c (Hs : stopped_safe c) : forall l s n s' t o np d,
+  invoke_loop c s l n = (s', t, o, np, d) -> P t.
+Proof.
+  induction l as [|e l IH]; intros s n s' t o np d H; cbn [invoke_loop] in H.
+  - injection H as <- <- <- <- <-. exact P_nil.
+  - destruct (emsg e) eqn:Ee.
+    + destruct (invoke_msg c s e) as [[s1 t1] o1] eqn:E1. apply invoke_msg_P in E1. destruct o1.
+      * destruct (invoke_loop c s1 l (S n)) as [[[[s2 t2] o2] np2] d2] eqn:E2. injection H as <- <- <- <- <-.
+        apply P_app; [exact E1|eapply IH; exact E2].
+      * injection H as <- <- <- <- <-. exact E1.
+    + assert (Hd : exists s1 t1 o1 np1 sk1,
+          (if graceful then drain c s l (S n) [] else (s, [], Normal, S n, [])) = (s1, t1, o1, np1, sk1) /\ P t1).
+      { destruct graceful.
+        - destruct (drain c s l (S n) []) as [[[[s1 t1] o1] np1] sk1] eqn:E1. exists s1, t1, o1, np1, sk1.
+          split; [reflexivity|]. eapply drain_P; exact E1.
+        - exists s, [], Normal, (S n), []. split; [reflexivity|exact P_nil]. }
+      destruct Hd as (s1 & t1 & o1 & np1 & sk1 & Heq & H1). rewrite Heq in H. clear Heq. destruct o1.
+      * destruct (cleanup c s1 (Some k)) as [[s2 t2] o2] eqn:E2.
+        pose proof (cleanup_safe _ _ _ _ _ _ Hs E2) as ->. apply cleanup_P in E2.
+        injection H as <- <- <- <- <-. apply P_app; [exact H1|]. apply P_app; [exact E2|apply discard_rest_P].
+      * injection H as <- <- <- <- <-. exact H1.
+Qed.
+
+Lemma start_end_P s3 : P (snd (start_end s3)).
+Proof. unfold start_end. destruct (dead s3); cbn [snd]; [exact P_nil|apply P_single; exact I]. Qed.
+
+Theorem safe_P c (Hs : stopped_safe c) :
+  (forall s msgs s' t, Invoke_s c s msgs s' t -> P t) /\
+  (forall s s' t, Start_s c s s' t -> P t) /\
+  (forall s b s' t, Restart_s c s b s' t -> P t).
+Proof.
+  apply safe_mutind.
+  - intros s msgs s' t np d El. eapply invoke_loop_P; eassumption.
+  - intros s msgs s1 t1 b np d s' t2 El _ IH. apply P_app; [eapply invoke_loop_P; eassumption|exact IH].
+  - intros s si ti b s' t' Ei _ IH. apply recv_P in Ei. apply P_cons; [exact I|]. apply P_app; assumption.
+  - intros s si ti s2 ts b s' t' Ei Es _ IH. apply recv_P in Ei. apply recv_P in Es.
+    apply P_cons; [exact I|]. apply P_app; [exact Ei|]. apply P_cons; [exact I|]. apply P_app; assumption.
+  - intros s si ti s2 ts Ei Es Hb. apply recv_P in Ei. apply recv_P in Es.
+    apply P_cons; [exact I|]. apply P_app; [exact Ei|]. apply P_cons; [exact I|]. apply P_app; [exact Es|].
+    apply P_cons; [exact I|]. apply start_end_P.
+  - intros s si ti s2 ts s3 t3 Ei Es Hb _ IH. apply recv_P in Ei. apply recv_P in Es.
+    apply P_cons; [exact I|]. apply P_app; [exact Ei|]. apply P_cons; [exact I|]. apply P_app; [exact Es|].
+    apply P_cons; [exact I|]. apply P_app; [exact IH|]. apply start_end_P.
+  - intros s s1 t1 s' t' E1 _ IH. apply recv_P in E1. apply P_app; [exact E1|]. apply P_cons; [exact I|exact IH].
+  - intros s s1 t1 Hmax E1. apply cleanup_P in E1. apply P_cons; [exact I|]. apply P_app; [exact E1|apply flat_discard_P].
+  - intros s s1 t1 s' t3 Hne E1 _ IH. apply recv_P in E1. apply P_app; [exact E1|].
+    apply P_cons; [exact I|]. apply P_cons; [exact I|exact IH].
+Qed.
+
+Lemma RunLoop_P c (Hs : stopped_safe c) s s' t : RunLoop_s c s s' t -> P t.
+Proof.
+  induction 1 as [s E|s E Eq|s s1 t1 s2 t2 E Eq Hi _ IH]; try exact P_nil.
+  apply P_app; [eapply (proj1 (safe_P c Hs)); exact Hi|exact IH].
+Qed.
+
+Lemma ext_pre_P s x s1 t1 : ext_pre s x = (s1, t1) -> P t1.
+Proof.
+  destruct x; cbn [ext_pre]; intros H.
+  - pose proof (P_send s n false) as Hp. rewrite H in Hp. exact Hp.
+  - pose proof (P_poison s true) as Hp. rewrite H in Hp. exact Hp.
+  - pose proof (P_poison s false) as Hp. rewrite H in Hp. exact Hp.
+Qed.
+
+Lemma Exts_P c (Hs : stopped_safe c) s xs s' t : Exts_s c s xs s' t -> P t.
+Proof.
+  induction 1 as [s|s x s1 t1 s2 t2 xs s3 t3 Ep Hl _ IH]; [exact P_nil|].
+  apply P_app; [eapply ext_pre_P; exact Ep|]. apply P_app; [eapply RunLoop_P; eassumption|exact IH].
+Qed.
+
+Theorem Run_P c (Hs : stopped_safe c) xs s t : Run_s c xs s t -> P t.
+Proof.
+  intros [s0 t0 s1 t1 s2 t2 H0 H1 H2].
+  apply P_app; [eapply (proj1 (proj2 (safe_P c Hs))); exact H0|].
+  apply P_app; [eapply RunLoop_P; eassumption|eapply Exts_P; eassumption].
+Qed.
+
+End TraceOnly.
+
+(* ------------------------------------------------------------------ *)
+(** ** Order: user messages are delivered in the order they were accepted *)
+Definition uenv (l : list env) : list nat :=
+  flat_map (fun e => match emsg e with User n => [n] | _ => [] end) l.
+Definition uacc (t : list event) : list nat := uenv (acc t).
+
+Lemma uenv_app a b : uenv (a ++ b) = uenv a ++ uenv b. Proof. apply flat_map_app. Qed.
+Lemma uacc_app a b : uacc (a ++ b) = uacc a ++ uacc b. Proof. unfold uacc. rewrite acc_app. apply uenv_app. Qed.
+Lemma dlv_cons0 e t : dlv [e] = [] -> dlv (e :: t) = dlv t.
+Proof. intros H. change (e :: t) with ([e] ++ t). rewrite dlv_app, H. reflexivity. Qed.
+Lemma acc_cons0 e t : acc [e] = [] -> acc (e :: t) = acc t.
+Proof. intros H. change (e :: t) with ([e] ++ t). rewrite acc_app, H. reflexivity. Qed.
+Lemma hev_dlv t : Forall hev t -> dlv t = [].
+Proof. induction 1 as [|e t He _ IH]; [reflexivity|]. rewrite dlv_cons0; [exact IH|]. destruct e; try contradiction; reflexivity. Qed.
+Lemma deadP_acc t : Forall deadP t -> acc t = [].
+Proof. induction 1 as [|e t He _ IH]; [reflexivity|]. rewrite acc_cons0; [exact IH|]. destruct e; try contradiction; reflexivity. Qed.
+Lemma deadP_hev t : Forall deadP t -> Forall hev t.
+Proof. apply Forall_impl. intros []; cbn; tauto. Qed.
+
+Lemma do_actions_ord acts s s' t o : do_actions s acts = (s', t, o) -> queue s' = queue s ++ acc t.
+Proof.
+  apply (do_actions_rel (fun s t s' => queue s' = queue s ++ acc t)).
+  - intros. cbn. rewrite app_nil_r. reflexivity.
+  - intros s0 t1 s1 t2 s2 H1 H2. rewrite H2, H1, acc_app, app_assoc. reflexivity.
+  - intros s0 n b. unfold send_self. destruct (registered s0); cbn; rewrite ?app_nil_r; reflexivity.
+  - intros s0 g. unfold poison_self. destruct (registered s0); cbn; rewrite ?app_nil_r; reflexivity.
+Qed.
+
+Definition lun (m : lmsg) : list nat := match m with LUser n => [n] | _ => [] end.
+
+Lemma recv_ord c s mw m s' t o : recv c s mw m = (s', t, o) ->
+  queue s' = queue s ++ acc t /\ dlv t = lun m /\ frame s s'.
+Proof.
+  intros H. apply recv_inv in H as (ta & -> & H). pose proof (do_actions_frame _ _ _ _ _ H) as [Hf Hh].
+  apply do_actions_ord in H. rewrite acc_cons0 by reflexivity. split; [exact H|]. split; [|exact Hf].
+  change (Recv (inc s) mw m (csender s) :: ta) with ([Recv (inc s) mw m (csender s)] ++ ta).
+  rewrite dlv_app, (hev_dlv _ Hh), app_nil_r. destruct m; reflexivity.
+Qed.
+
+Lemma invoke_msg_ord c s e s' t o : invoke_msg c s e = (s', t, o) ->
+  queue s' = queue s ++ acc t /\ dlv t = uenv [e] /\ dead s' = dead s.
+Proof.
+  unfold invoke_msg, uenv. cbn [flat_map]. destruct (emsg e).
+  - intros H. apply recv_ord in H as (H1 & H2 & (_&_&_&_&Hd&_)). cbn in *. rewrite ?app_nil_r. repeat split; assumption.
+  - intros [= <- <- <-]. cbn. rewrite ?app_nil_r. repeat split.
+Qed.
+
+Lemma cleanup_ord c s k s' t : cleanup c s k = (s', t, Normal) -> dlv t = [] /\ dead s' = true.
+Proof.
+  intros H. apply cleanup_normal_inv in H as (s1 & t1 & E & -> & ->).
+  apply recv_ord in E as (_ & E & (_&_&_&_&Hd&_)). cbn in Hd. split; [|exact Hd].
+  rewrite dlv_cons0 by reflexivity. rewrite dlv_app, E. cbn [lun app]. rewrite !dlv_cons0 by reflexivity.
+  rewrite dlv_app, (hev_dlv _ (flat_discard_hev _)). destruct k; reflexivity.
+Qed.
+
+Lemma uenv_cons e l : uenv (e :: l) = uenv [e] ++ uenv l.
+Proof. change (e :: l) with ([e] ++ l). apply uenv_app. Qed.
+
+Lemma uenv_pill e l : (match emsg e with Pill _ _ => True | _ => False end) -> uenv (e :: l) = uenv l.
+Proof. unfold uenv. cbn [flat_map]. destruct (emsg e); [contradiction|reflexivity]. Qed.
+
+Lemma drain_ord c : forall l s n sk s' t o np sk', drain c s l n sk = (s', t, o, np, sk') ->
+  queue s' = queue s ++ acc t /\ dlv t = uenv (firstn (np - n) l) /\ uenv sk' = uenv sk /\ dead s' = dead s.
+Proof.
+  induction l as [|e l IH]; intros s n sk s' t o np sk' H.
+  - cbn [drain] in H. injection H as <- <- <- <- <-. cbn. rewrite app_nil_r, Nat.sub_diag. repeat split.
+  - pose proof (drain_cnt (inl 0) c _ _ _ _ _ _ _ _ _ H) as (B1 & B2 & _). cbn [drain] in H.
+    destruct (emsg e) eqn:Ee.
+    + destruct (invoke_msg c s e) as [[s1 t1] o1] eqn:E1. apply invoke_msg_ord in E1 as (Q1 & D1 & X1). destruct o1.
+      * destruct (drain c s1 l (S n) sk) as [[[[s2 t2] o2] np2] sk2] eqn:E2. injection H as <- <- <- <- <-.
+        pose proof (drain_cnt (inl 0) c _ _ _ _ _ _ _ _ _ E2) as (B3 & _).
+        apply IH in E2 as (Q2 & D2 & U2 & X2).
+        replace (np2 - n) with (S (np2 - S n)) by lia. cbn [firstn].
+        rewrite acc_app, dlv_app, Q2, Q1, D1, D2, app_assoc, (uenv_cons e (firstn (np2 - S n) l)). repeat split; try assumption; congruence.
+      * injection H as <- <- <- <- <-. replace (S n - n) with 1 by lia. cbn [firstn]. repeat split; assumption.
+    + pose proof (drain_cnt (inl 0) c _ _ _ _ _ _ _ _ _ H) as (B3 & _).
+      apply IH in H as (Q2 & D2 & U2 & X2). replace (np - n) with (S (np - S n)) by lia. cbn [firstn].
+      rewrite uenv_pill by (rewrite Ee; exact I). rewrite uenv_app in U2.
+      rewrite (uenv_pill e []) in U2 by (rewrite Ee; exact I). cbn in U2. rewrite app_nil_r in U2.
+      repeat split; assumption.
+Qed.
+
+Lemma uenv_firstn_skipn j l : uenv l = uenv (firstn j l) ++ uenv (skipn j l).
+Proof. rewrite <- uenv_app, firstn_skipn. reflexivity. Qed.
+
+Lemma invoke_loop_ord c (Hs : stopped_safe c) : forall l s n s' t o np d,
+  invoke_loop c s l n = (s', t, o, np, d) -> dead s = false ->
+  exists rest, uenv l = dlv t ++ rest /\ (o <> Normal -> dead s' = false) /\
+    (dead s' = false -> queue s' = queue s ++ acc t /\
+       rest = match o with Normal => [] | _ => uenv d ++ uenv (skipn (np - n) l) end).
+Proof.
+  induction l as [|e l IH]; intros s n s' t o np d H Hd.
+  - cbn [invoke_loop] in H. injection H as <- <- <- <- <-. exists []. cbn. rewrite app_nil_r. repeat split. congruence.
+  - pose proof (invoke_loop_cnt (inl 0) c Hs _ _ _ _ _ _ _ _ H) as [B1 _]. cbn [invoke_loop] in H.
+    destruct (emsg e) eqn:Ee.
+    + assert (Hue : uenv (e :: l) = n0 :: uenv l) by (unfold uenv; cbn [flat_map]; rewrite Ee; reflexivity).
+      destruct (invoke_msg c s e) as [[s1 t1] o1] eqn:E1. apply invoke_msg_ord in E1 as (Q1 & D1 & X1).
+      assert (D1' : dlv t1 = [n0]) by (rewrite D1; unfold uenv; cbn [flat_map]; rewrite Ee; reflexivity).
+      destruct o1.
+      * destruct (invoke_loop c s1 l (S n)) as [[[[s2 t2] o2] np2] d2] eqn:E2. injection H as <- <- <- <- <-.
+        pose proof (invoke_loop_cnt (inl 0) c Hs _ _ _ _ _ _ _ _ E2) as [B2 _].
+        apply IH in E2 as (rest & R1 & R2 & R3); [|congruence]. exists rest.
+        rewrite Hue, dlv_app, D1', R1. split; [reflexivity|]. split; [exact R2|]. intros Hd'.
+        destruct (R3 Hd') as [Q2 R4]. rewrite acc_app, Q2, Q1, app_assoc. split; [reflexivity|].
+        replace (np2 - n) with (S (np2 - S n)) by lia. exact R4.
+      * injection H as <- <- <- <- <-. exists (uenv l). rewrite Hue, D1'. split; [reflexivity|].
+        split; [intros _; congruence|]. intros _. split; [exact Q1|]. replace (S n - n) with 1 by lia. reflexivity.
+    + assert (Hue : uenv (e :: l) = uenv l) by (apply uenv_pill; rewrite Ee; exact I).
+      destruct graceful.
+      * destruct (drain c s l (S n) []) as [[[[s1 t1] o1] np1] sk1] eqn:E1.
+        pose proof (drain_cnt (inl 0) c _ _ _ _ _ _ _ _ _ E1) as (D1 & D2 & D3 & _).
+        apply drain_ord in E1 as (Q1 & L1 & U1 & X1). destruct o1.
+        -- destruct (cleanup c s1 (Some k)) as [[s2 t2] o2] eqn:E2.
+           pose proof (cleanup_safe _ _ _ _ _ _ Hs E2) as ->. apply cleanup_ord in E2 as [C1 C2].
+           injection H as <- <- <- <- <-. exists []. specialize (D3 eq_refl).
+           replace (np1 - S n) with (length l) in L1 by lia. rewrite firstn_all in L1.
+           rewrite Hue, !dlv_app, C1, (hev_dlv _ (discard_rest_hev _ _)), L1, !app_nil_r.
+           split; [reflexivity|]. split; [congruence|]. intros; congruence.
+        -- injection H as <- <- <- <- <-. exists (uenv (skipn (np1 - S n) l)).
+           rewrite Hue, L1. split; [apply uenv_firstn_skipn|]. split; [intros _; congruence|].
+           intros _. split; [exact Q1|]. replace (np1 - n) with (S (np1 - S n)) by lia. cbn [skipn].
+           rewrite uenv_pill by (rewrite Ee; exact I). rewrite U1. reflexivity.
+      * destruct (cleanup c s (Some k)) as [[s2 t2] o2] eqn:E2.
+        pose proof (cleanup_safe _ _ _ _ _ _ Hs E2) as ->. apply cleanup_ord in E2 as [C1 C2].
+        injection H as <- <- <- <- <-. exists (uenv l). cbn [app].
+        rewrite Hue, !dlv_app, C1, (hev_dlv _ (discard_rest_hev _ _)).
+        split; [reflexivity|]. split; [congruence|]. intros; congruence.
+Qed.
+
+Theorem safe_ord c (Hs : stopped_safe c) :
+  (forall s msgs s' t, Invoke_s c s msgs s' t -> dead s = false ->
+     exists rest, uenv msgs = dlv t ++ rest /\ (dead s' = false -> rest = [] /\ queue s' = queue s ++ acc t)) /\
+  (forall s s' t, Start_s c s s' t -> dead s = false ->
+     exists rest, uenv (mbuf s) = dlv t ++ rest /\ (dead s' = false -> rest = [] /\ queue s' = queue s ++ acc t)) /\
+  (forall s b s' t, Restart_s c s b s' t -> dead s = false ->
+     exists rest, uenv (mbuf s) = dlv t ++ rest /\ (dead s' = false -> rest = [] /\ queue s' = queue s ++ acc t)).
+Proof.
+  apply safe_mutind.
+  - intros s msgs s' t np d El Hd. apply (invoke_loop_ord c Hs) in El as (rest & R1 & _ & R3); [|exact Hd].
+    exists rest. split; [exact R1|]. intros Hd'. destruct (R3 Hd') as [Q R]. split; assumption.
+  - intros s msgs s1 t1 b np d s' t2 El _ IH Hd.
+    apply (invoke_loop_ord c Hs) in El as (rest & R1 & R2 & R3); [|exact Hd].
+    assert (Hd1 : dead s1 = false) by (apply R2; discriminate). destruct (R3 Hd1) as [Q1 R4].
+    destruct (IH Hd1) as (rest2 & S1 & S2). cbn [mbuf upd_mbuf queue] in S1, S2. unfold rbuf in S1.
+    rewrite uenv_app, Nat.sub_0_r in *. exists rest2. rewrite dlv_app, R1, R4, S1, app_assoc. split; [reflexivity|].
+    intros Hd'. destruct (S2 Hd') as [-> Q2]. split; [reflexivity|]. rewrite Q2, Q1, acc_app, app_assoc. reflexivity.
+  - intros s si ti b s' t' Ei _ IH Hd.
+    apply recv_ord in Ei as (Q1 & D1 & (_&_&Hm&_&Hdd&_)). cbn in Q1, D1, Hm, Hdd.
+    destruct IH as (rest & S1 & S2); [congruence|]. exists rest.
+    rewrite dlv_cons0, acc_cons0 by reflexivity. rewrite dlv_app, D1, acc_app, <- Hm. split; [exact S1|].
+    intros Hd'. destruct (S2 Hd') as [-> Q2]. split; [reflexivity|]. rewrite Q2, Q1, app_assoc. reflexivity.
+  - intros s si ti s2 ts b s' t' Ei Es _ IH Hd.
+    apply recv_ord in Ei as (Q1 & D1 & (_&_&Hm&_&Hdd&_)). cbn in Q1, D1, Hm, Hdd.
+    apply recv_ord in Es as (Q2 & D2 & (_&_&Hm2&_&Hdd2&_)). cbn in D2.
+    destruct IH as (rest & S1 & S2); [congruence|]. exists rest.
+    rewrite dlv_cons0, acc_cons0 by reflexivity. rewrite dlv_app, D1, acc_app.
+    rewrite dlv_cons0, acc_cons0 by reflexivity. rewrite dlv_app, D2, acc_app, <- Hm, <- Hm2. split; [exact S1|].
+    intros Hd'. destruct (S2 Hd') as [-> Q3]. split; [reflexivity|]. rewrite Q3, Q2, Q1, !app_assoc. reflexivity.
+  - intros s si ti s2 ts Ei Es Hb Hd.
+    apply recv_ord in Ei as (Q1 & D1 & (_&_&Hm&_&Hdd&_)). cbn in Q1, D1, Hm, Hdd.
+    apply recv_ord in Es as (Q2 & D2 & (_&_&Hm2&_&Hdd2&_)). cbn in D2.
+    exists []. rewrite <- Hm, <- Hm2, Hb.
+    rewrite dlv_cons0, acc_cons0 by reflexivity. rewrite dlv_app, D1, acc_app.
+    rewrite dlv_cons0, acc_cons0 by reflexivity. rewrite dlv_app, D2, acc_app.
+    rewrite dlv_cons0, acc_cons0 by reflexivity.
+    unfold start_end. destruct (dead s2); cbn [fst snd queue upd_istopped dlv acc flat_map app];
+      (split; [reflexivity|]); intros _; (split; [reflexivity|]); rewrite Q2, Q1, ?app_nil_r, app_assoc; reflexivity.
+  - intros s si ti s2 ts s3 t3 Ei Es Hb _ IH Hd.
+    apply recv_ord in Ei as (Q1 & D1 & (_&_&Hm&_&Hdd&_)). cbn in Q1, D1, Hm, Hdd.
+    apply recv_ord in Es as (Q2 & D2 & (_&_&Hm2&_&Hdd2&_)). cbn in D2.
+    destruct IH as (rest & S1 & S2); [congruence|]. exists rest. rewrite <- Hm, <- Hm2.
+    rewrite dlv_cons0, acc_cons0 by reflexivity. rewrite dlv_app, D1, acc_app.
+    rewrite dlv_cons0, acc_cons0 by reflexivity. rewrite dlv_app, D2, acc_app.
+    rewrite dlv_cons0, acc_cons0 by reflexivity. rewrite dlv_app, acc_app.
+    unfold start_end. change (dead (upd_mbuf s3 [])) with (dead s3).
+    destruct (dead s3) eqn:Hd3; cbn [fst snd queue upd_istopped upd_mbuf dlv acc flat_map app dead];
+      rewrite ?app_nil_r; (split; [exact S1|]); intros Hd'; [congruence|].
+    destruct (S2 eq_refl) as [-> Q3]. split; [reflexivity|]. rewrite Q3, Q2, Q1, !app_assoc. reflexivity.
+  - intros s s1 t1 s' t' E1 _ IH Hd.
+    apply recv_ord in E1 as (Q1 & D1 & (_&_&Hm&_&Hdd&_)). cbn in D1.
+    destruct IH as (rest & S1 & S2); [congruence|]. exists rest. rewrite <- Hm.
+    rewrite dlv_app, D1, acc_app. rewrite dlv_cons0, acc_cons0 by reflexivity. split; [exact S1|].
+    intros Hd'. destruct (S2 Hd') as [-> Q2]. split; [reflexivity|]. rewrite Q2, Q1, app_assoc. reflexivity.
+  - intros s s1 t1 Hmax E1 Hd. apply cleanup_ord in E1 as [C1 C2]. exists (uenv (mbuf s)).
+    rewrite dlv_cons0 by reflexivity. rewrite dlv_app, C1, (hev_dlv _ (flat_discard_hev _)).
+    split; [reflexivity|]. cbn [dead upd_mbuf]. intros; congruence.
+  - intros s s1 t1 s' t3 Hne E1 _ IH Hd.
+    apply recv_ord in E1 as (Q1 & D1 & (_&_&Hm&_&Hdd&_)). cbn in D1.
+    destruct IH as (rest & S1 & S2); [cbn; congruence|]. cbn [mbuf queue upd_restarts] in S1, S2.
+    exists rest. rewrite <- Hm. rewrite dlv_app, D1, acc_app. rewrite !dlv_cons0, !acc_cons0 by reflexivity.
+    split; [exact S1|]. intros Hd'. destruct (S2 Hd') as [-> Q2]. split; [reflexivity|]. rewrite Q2, Q1, app_assoc. reflexivity.
+Qed.
